@@ -1,5 +1,5 @@
 import MpsVerif.Proofs.TeeInv
-/-! Preservation of the layer-1 invariant, action kinds: bacq, inc, get, brel, recv, exc, stop. -/
+/-! Preservation of the layer-1 invariant, action kinds: bacq, inc, ncmp, get, brel, recv, exc, stop. -/
 namespace Tee
 
 theorem inv_step_bacq (c : Cfg) (s s' : State) (f : Nat) (hi : Inv c s)
@@ -19,6 +19,15 @@ theorem inv_step_inc (c : Cfg) (s s' : State) (f : Nat) (hi : Inv c s)
   obtain ⟨a1, a2, a3, a4, a5, a6, a7, a8, a9, a10, a11, a12, a13, a14, a15, a16, a17, a18, a19, a20, a21, a22, a23, a24, a25, a26, a27, a28⟩ := hF f hf
   cases hs
   case inc => tee_all
+
+theorem inv_step_ncmp (c : Cfg) (s s' : State) (f : Nat) (hi : Inv c s)
+    (hs : Step c s ⟨f, .ncmp⟩ s') : Inv c s' := by
+  have hF := hi.forks
+  have hf := hs.lt
+  obtain ⟨g1, g2, g3, g4, g5, g6, g7, g8, -⟩ := hi
+  obtain ⟨a1, a2, a3, a4, a5, a6, a7, a8, a9, a10, a11, a12, a13, a14, a15, a16, a17, a18, a19, a20, a21, a22, a23, a24, a25, a26, a27, a28⟩ := hF f hf
+  cases hs
+  case cmp => tee_all
 
 theorem inv_step_get (c : Cfg) (s s' : State) (f : Nat) (hi : Inv c s)
     (hs : Step c s ⟨f, .get⟩ s') : Inv c s' := by
